@@ -346,8 +346,9 @@ class Gen:
         if k == "pvar":
             return ["var", ch.choice(PROVIDE_KWARGS + self.provide_keys, "pvar")]
         if k == "elem":
-            return ["elem", ELEM_TAGS[ch.draw(len(ELEM_TAGS), "tag")], self.tok(),
-                    self.nodes(scope, owner, depth + 1, in_fill=in_fill, in_slot_default=in_slot_default)]
+            return self.maybe_include(["elem", ELEM_TAGS[ch.draw(len(ELEM_TAGS), "tag")], self.tok(),
+                                       self.nodes(scope, owner, depth + 1, in_fill=in_fill, in_slot_default=in_slot_default)],
+                                      in_fill, in_slot_default)
         if k == "if":
             cond = ch.choice(scope["bool"] + scope["str"][:1], "ifvar")
             then = self.nodes(scope, owner, depth + 1, in_fill=in_fill, in_slot_default=in_slot_default)
@@ -365,7 +366,7 @@ class Gen:
             sc = dict(scope, str=scope["str"] + [w])
             return ["with", w, e, self.nodes(sc, owner, depth + 1, in_fill=in_fill, in_slot_default=in_slot_default)]
         if k == "comp":
-            return self.comp_node(scope, owner, depth, in_fill)
+            return self.maybe_include(self.comp_node(scope, owner, depth, in_fill), in_fill, in_slot_default)
         if k == "provide":
             key = ch.choice(self.provide_keys, "pkey")
             # provider kwarg names come from a small fixed pool, so that any template may try to read them as
@@ -392,6 +393,15 @@ class Gen:
                 return ["alias_data", al[0], ch.choice(keys, "aliaskey")]
             return ["alias_default", al[0]]
         raise AssertionError(k)
+
+    def maybe_include(self, node, in_fill, in_slot_default):
+        """Move an element / component tag into a partial template of its own that is pulled in with {% include %}:
+        same output (the partial renders with the same context), but the tag is no longer a node of the template it
+        appears in - whatever the library decides by inspecting a template's own node list does not see it."""
+        den = self.P.get("includes")
+        if den and not in_fill and not in_slot_default and self.ch.chance(1, den, "include"):
+            return ["include", None, None, [node]]
+        return node
 
     def callees(self, owner):
         lo = 0 if owner is None else owner + 1
@@ -739,6 +749,8 @@ def skeleton(nodes):
             out.append([k, skeleton(n[3])])
         elif k == "elem":
             out.append(["e", skeleton(n[3])])
+        elif k == "include":
+            out.append(["i", skeleton(n[3])])
         elif k == "comp":
             out.append(["c", n[1], n[3], n[4], skeleton(n[5]), n[6]])
         elif k == "fill":
